@@ -92,6 +92,12 @@ func TestC25_WriteSubsets(t *testing.T) {
 					}
 					evaluate(t, rec, "C25", "TestC25_WriteSubsets", c)
 					total++
+					if size == d+1 {
+						// the same subset with the blob in the middle of a batch of three
+						c.Companions, c.Before = 2, 1
+						evaluate(t, rec, "C25", "TestC25_WriteSubsets", c)
+						total++
+					}
 				}
 			}
 		}
